@@ -2557,6 +2557,7 @@ impl BrailleChars {
                     }
                     return false;
                 },
+                _ if is_leaf(node) => false,      // ms, mglyph, ...: a word, not an item of an enclosed list (and its child is text)
                 _ => {
                     for child in node.children() {
                         if !child_meets_conditions(as_element(child)) {
